@@ -492,6 +492,7 @@ func (d *Data) storeBlocks(ctx *datastore.VersionedCtx, r io.ReadCloser, scale u
 		return err
 	}
 	var numBlocks int
+	blockSize := d.BlockSize().(dvid.Point3d)
 	for {
 		block, compressed, bx, by, bz, err := readStreamedBlock(r, scale)
 		if err == io.EOF {
@@ -499,6 +500,9 @@ func (d *Data) storeBlocks(ctx *datastore.VersionedCtx, r io.ReadCloser, scale u
 		}
 		if err != nil {
 			return err
+		}
+		if block.Size != blockSize {
+			return fmt.Errorf("block (%d,%d,%d) has size %s, not the block size %s of labelmap %q", bx, by, bz, block.Size, blockSize, d.DataName())
 		}
 		bcoord := dvid.ChunkPoint3d{bx, by, bz}.ToIZYXString()
 		tk := NewBlockTKeyByCoord(scale, bcoord)
@@ -572,13 +576,17 @@ func (d *Data) ingestBlocks(ctx *datastore.VersionedCtx, r io.ReadCloser, scale 
 	defer d.StopUpdate()
 
 	var numBlocks int
+	blockSize := d.BlockSize().(dvid.Point3d)
 	for {
-		_, compressed, bx, by, bz, err := readStreamedBlock(r, scale)
+		block, compressed, bx, by, bz, err := readStreamedBlock(r, scale)
 		if err == io.EOF {
 			break
 		}
 		if err != nil {
 			return err
+		}
+		if block.Size != blockSize {
+			return fmt.Errorf("block (%d,%d,%d) has size %s, not the block size %s of labelmap %q", bx, by, bz, block.Size, blockSize, d.DataName())
 		}
 		bcoord := dvid.ChunkPoint3d{bx, by, bz}.ToIZYXString()
 		tk := NewBlockTKeyByCoord(scale, bcoord)
